@@ -31,6 +31,10 @@ func checkC02(c *Ctx) {
 	c.rule("C02.h", "an option field's encoding is not conditional on an unrelated field of the same struct", 1)
 	ruleNoCrossFieldGuard(c, "C02.h")
 	c.rule("C02.d", "no parse failure is swallowed in the server's command parsers", 100)
+	c.rule("C02.i", "mailbox names: the encoder applies modified UTF-7 exactly where the decoder inverts it", 26)
+	ruleMailboxTransform(c, "C02.i")
+	c.rule("C02.j", "a decoded argument is stored into one field of the backend's option structure per path", 20)
+	ruleOneValueOneField(c, "C02.j")
 	ruleNoSwallowedError(c, "C02.d", "imapserver", "internal")
 }
 
